@@ -361,7 +361,7 @@ func (c *fctx) stmt() []*S {
 	switch k {
 	case SDecl:
 		// 'p, q := e1, e2' re-using a variable declared in this very block
-		if !c.g.varStyle && r.Chance(1, 8) {
+		if !c.g.varStyle && r.Chance(1, 5) {
 			var here []string
 			for _, n := range c.sc.order {
 				if c.sc.names[n] == vInt {
@@ -372,6 +372,50 @@ func (c *fctx) stmt() []*S {
 				old := here[r.Intn(len(here))]
 				name := c.fresh(intPool)
 				e1, e2 := c.pure(1).str(Mode{}), c.pure(1).str(Mode{})
+				variant := r.Intn(5)
+				if variant == 4 {
+					variant = 0
+				}
+				switch variant {
+				case 0:
+					// the operand assigned to the re-used variable is an OUTER variable whose
+					// name the statement declares anew: 'p, n := n, e'
+					var outer []string
+					for _, n := range c.sc.visible(vInt, vRO) {
+						// parameters share the scope of the function body in Go: never re-declare them
+						if !c.sc.here(n) && n != "a" && n != "b" && n != "c" && n != "p" {
+							outer = append(outer, n)
+						}
+					}
+					if len(outer) > 0 {
+						name = outer[r.Intn(len(outer))]
+						e1 = name
+						c.g.mark("define_reusing_operand_names_the_new_variable")
+					}
+				case 1:
+					// the same with a package-level constant: 'p, kq := kq, e'
+					if !c.sc.here("kq") {
+						name, e1 = "kq", "kq"
+						c.g.needHelpers = true
+						c.g.mark("define_reusing_constant_operand_shadowed_by_the_new_variable")
+					}
+				case 2:
+					// an untyped boolean operand assigned to a re-used variable of a named type,
+					// declared before a yield of the same block
+					if c.gen {
+						fl := c.fresh([]string{"fl", "fl2"})
+						yielded := c.expr() // drawn before the new variable is in scope
+						c.sc.declare(fl, vAny)
+						c.sc.declare(name, vInt)
+						c.g.needHelpers = true
+						c.g.mark("define_reusing_named_bool_untyped_operand")
+						return []*S{
+							{K: SRaw, ID: c.g.id(), Src: fmt.Sprintf("var %s flag", fl)},
+							{K: SYield, ID: c.g.id(), E: yielded},
+							{K: SRaw, ID: c.g.id(), Src: fmt.Sprintf("%s, %s := %s < %s, %s\nif %s {\n\tvrt.E(%d, %s)\n}", fl, name, e1, e2, e2, fl, c.g.nextTag(), name)},
+						}
+					}
+				}
 				c.sc.declare(name, vInt)
 				c.g.mark("define_reusing_a_variable_of_the_block")
 				text := fmt.Sprintf("%s, %s := %s, %s\n_ = %s", old, name, e1, e2, name)
